@@ -94,4 +94,9 @@ def handle : Handler := fun j => do
       ("reading_is_meaning", Json.bool (match t with | some t => equivalent t sk | none => false)),
       ("pieces_scan_as_text", Json.bool (decide (toks = lex text)))] ++ real)
 
+/-- area `boolparse`: SQL text → its boolean reading (or null) -/
+def handleRead : Handler := fun j => do
+  let sql ← getStr j "sql"
+  pure <| Json.mkObj [("tree", optTree (boolParseSql sql))]
+
 end Driver.FilterSemD
